@@ -46,17 +46,26 @@ theorem loop_none_segments (P : Prng S G D) (glob : G) (n : Nat) :
       = ((List.range n).map (fun k => (P.draw (advance P k glob)).1), .none, advance P n glob) :=
   loop_none P n glob
 
-/-- C15.b `reps_distinct_streams`: the repetitions are pairwise different draws whenever the stream does not repeat
-itself within `n` segments (a property of the generator, assumed) — for every kind of seed argument. -/
+/-- C15.b `reps_distinct_streams`: the repetitions are pairwise different draws whenever the stream does not repeat itself
+within the first `n` segments **from the state the run actually starts from** (`startOf`: the generator seeded with the
+integer, the generator object handed in, or the global state) — a property of the generator along that one orbit, assumed;
+for every kind of seed argument. -/
 theorem reps_distinct_streams (P : Prng S G D) (a : SeedArg S G) (glob : G) (n : Nat)
-    (hno : ∀ g : G, ((List.range n).map fun k => (P.draw (advance P k g)).1).Nodup) :
+    (hno : ((List.range n).map fun k => (P.draw (advance P k (startOf P a glob))).1).Nodup) :
     ((loop P n a glob).1).Nodup := by
   cases a with
-  | int s => rw [loop_int]; exact hno _
-  | gen g => rw [loop_gen]; exact hno _
-  | none => rw [loop_none]; exact hno _
+  | int s => rw [loop_int]; exact hno
+  | gen g => rw [loop_gen]; exact hno
+  | none => rw [loop_none]; exact hno
 
 end loop
+
+/-- `reps_distinct_streams` instantiated: the toy congruential generator does not repeat within 3 segments from seed 5
+(it does have a fixed point elsewhere, 717570 — the hypothesis is about the orbit of the start state only) -/
+example : ((loop lcg 3 (.int 5) 7).1).Nodup :=
+  reps_distinct_streams lcg (.int 5) 7 3 (by decide)
+
+example : (loop lcg 3 (.gen 717570) 7).1 = [717570, 717570, 717570] := by decide
 
 /-- non-vacuity on a toy congruential generator: three repetitions with an integer seed are three different draws, and
 they are those of a generator object seeded with it -/
@@ -78,19 +87,27 @@ theorem flowData_succ (P : Prng S G D) (T : SeedTree S) (seed : S) (n : Nat) :
   simp [flowData, spawn, List.range_succ]
 
 /-- C15.c `flow_streams_distinct`: the repetitions of the flow start from pairwise different generator states, provided
-spawning is injective in the child index and seeding is injective (properties of `SeedSequence` / `MT19937` that are
-assumed, not proved). -/
+the generators seeded with the `n` children **actually spawned** differ (a property of `SeedSequence.spawn` composed with
+`MT19937` seeding on those children, assumed — the harness observes it on numpy). -/
 theorem flow_streams_distinct (P : Prng S G D) (T : SeedTree S) (seed : S) (n : Nat)
-    (hchild : ∀ i j, T.child seed i = T.child seed j → i = j)
-    (hseed : ∀ a b, P.ofSeed a = P.ofSeed b → a = b) :
+    (hinj : ∀ i j, i < n → j < n → P.ofSeed (T.child seed i) = P.ofSeed (T.child seed j) → i = j) :
     ((spawn T seed n).map P.ofSeed).Nodup := by
   unfold spawn
   rw [List.map_map]
   refine (List.nodup_range (n := n)).map_on ?_
-  intro i _ j _ h
-  exact hchild i j (hseed _ _ h)
+  intro i hi j hj h
+  exact hinj i j (List.mem_range.mp hi) (List.mem_range.mp hj) h
 
 end flow
+
+/-- `flow_streams_distinct` instantiated on the toy tree / generator the driver executes (`flow` op), 4 repetitions -/
+example : ((spawn toyTree 11 4).map lcg.ofSeed).Nodup :=
+  flow_streams_distinct lcg toyTree 11 4 (fun i j hi hj h => by
+    have key : ∀ i, i < 4 → ∀ j, j < 4 → lcg.ofSeed (toyTree.child 11 i) = lcg.ofSeed (toyTree.child 11 j) → i = j := by
+      decide
+    exact key i hi j hj h)
+
+example : flowData lcg toyTree 11 4 = [342, 343, 344, 345] ∧ flowData lcg toyTree 11 3 = [342, 343, 344] := by decide
 
 /-! ## scheduling -/
 
@@ -127,11 +144,29 @@ theorem partition_independent_fails :
   revert this
   decide
 
-/-- C15.e `reest_reproduces`: re-estimating repetition `i` from the stored empirical distributions returns the stored
-estimate, for an estimator that is a function of the data (see `partition_independent_partial` for the proviso). -/
-theorem reest_reproduces {D E : Type} (est : D → E) (stored : List D) (i : Nat) :
-    reEstimate est stored i = (stored.map est)[i]? := by
-  simp [reEstimate]
+/-- C15.e `reest_reproduces_partial`: re-estimating repetition `i` from the stored empirical distributions returns the
+stored estimate **provided the estimate does not depend on the state of the loss / algorithm objects** of the setting
+(the run threads that state through the repetitions, `re_estimate(i)` uses the objects in whatever state `s` they are in).
+Missing: state-dependent estimators (see `partition_independent_fails`; C13 lists which objects keep state — on the tree
+only the algorithm object's first projection, which is constant within a run). -/
+theorem reest_reproduces_partial {D E St : Type} (est : D → St → E × St) (s₀ s : St) (stored : List D) (i : Nat)
+    (hpure : ∀ d s s', (est d s).1 = (est d s').1) :
+    reEstimate est s stored i = (storedEstimates est s₀ stored)[i]? := by
+  rw [storedEstimates_pure est s₀ hpure stored s₀]
+  simp [reEstimate, hpure _ s s₀]
+
+/-- instance: an estimator that ignores the object state, three stored repetitions; and the counter-example for a
+state-dependent one (the stored second estimate saw the state left by the first) -/
+example : reEstimate (fun (d : Nat) (s : Nat) => (2 * d, s + 1)) 5 [10, 20, 30] 1
+    = (storedEstimates (fun (d : Nat) (s : Nat) => (2 * d, s + 1)) 0 [10, 20, 30])[1]? :=
+  reest_reproduces_partial _ 0 5 _ 1 (by intros; rfl)
+
+example : reEstimate (fun (d : Nat) (s : Nat) => (d + s, s + 1)) 0 [10, 20, 30] 1 = some 20 ∧
+    (storedEstimates (fun (d : Nat) (s : Nat) => (d + s, s + 1)) 0 [10, 20, 30])[1]? = some 21 := by decide
+
+/-- `partition_independent_partial` instantiated: state-independent tasks, two batches -/
+example : collect 3 (runBatches (fun i (s : Nat) => (i * i, s + 1)) 0 [[2, 0], [1]]) = [some 0, some 1, some 4] :=
+  partition_independent_partial _ 0 3 (by intros; rfl) _ (by decide)
 
 /-! ## depolarising noise -/
 
@@ -140,6 +175,19 @@ theorem reest_reproduces {D E : Type} (est : D → E) (stored : List D) (i : Nat
 over any commutative ring, any length. -/
 theorem depol_eq_mixture {K : Type} [CommRing K] (p : K) (v : List K) : depolVec p v = mixVec p v :=
   depolVec_eq_mixVec p v
+
+/-- C15.f `depolHs_eq_mixture`: the Hilbert–Schmidt matrix of the depolarised gate (and of every element of a depolarised
+measurement process) is the mixture `(1-p)·hs + p·hs_mixed`, `hs_mixed` = row 0 of `hs` with zeros below (the map that sends
+every input to the maximally mixed output of the same weight) — entrywise, any size, any commutative ring. -/
+theorem depolHs_eq_mixture {K : Type} [CommRing K] (p : K) (hs : List (List K)) (i : Nat) (hi : i < hs.length) :
+    (depolHs p hs)[i]? = some (hs[i].map fun x => (1 - p) * x + p * (if i = 0 then x else 0)) := by
+  simp only [depolHs, depolDiag, hi, List.getElem?_zipWith, List.getElem?_map, List.getElem?_range,
+    List.getElem?_eq_getElem, Option.map_some, Option.some.injEq]
+  apply List.map_congr_left
+  intro x _
+  by_cases h : i = 0
+  · simp [h]; ring
+  · simp [h]
 
 /-- C15.f: the Hilbert–Schmidt matrix of the depolarised gate: row 0 kept, every other row scaled by `1-p`. -/
 theorem depolHs_rows {K : Type} [CommRing K] (p : K) (hs : List (List K)) (i : Nat) (hi : i < hs.length) :
@@ -150,10 +198,13 @@ section convex
 open scoped ComplexOrder
 variable {n : Type*} [Fintype n] {𝕜 : Type*} [RCLike 𝕜]
 
-/-- C15.f `depol_convex_physical`: a mixture of two density matrices with weights `1-p`, `p`, `0 ≤ p ≤ 1`, is a density
+/-- C15.f `depol_convex_physical_partial`: a mixture of two density matrices with weights `1-p`, `p`, `0 ≤ p ≤ 1`, is a density
 matrix (positive semidefinite, trace one): the physical set is convex, so the depolarised object is physical whenever
-the ideal one is (the maximally mixed object is physical). -/
-theorem depol_convex_physical (ρ σ : Matrix n n 𝕜) (hρ : ρ.PosSemidef) (hσ : σ.PosSemidef)
+the ideal one is (the maximally mixed object is physical). Missing: this is the convexity argument for **states** only,
+stated on abstract matrices (not tied to `depolVec`); physicality of depolarised gates / POVMs / measurement processes
+(Choi positivity + trace preservation under the mixture) and of random-Lindbladian objects is observed on the
+implementation by the harness (`is_physical` of every generated object), not proved. -/
+theorem depol_convex_physical_partial (ρ σ : Matrix n n 𝕜) (hρ : ρ.PosSemidef) (hσ : σ.PosSemidef)
     (tρ : ρ.trace = 1) (tσ : σ.trace = 1) (p : ℝ) (h0 : 0 ≤ p) (h1 : p ≤ 1) :
     (((1 - p : ℝ) : 𝕜) • ρ + ((p : ℝ) : 𝕜) • σ).PosSemidef ∧
     (((1 - p : ℝ) : 𝕜) • ρ + ((p : ℝ) : 𝕜) • σ).trace = 1 := by
@@ -173,10 +224,15 @@ returns `False` exactly when some stored estimate fails a test of a constraint i
 `on_algo_eq_constraint` / `on_algo_ineq_constraint`, nothing without an algorithm option; other estimators: nothing).
 The verdicts are those of `is_eq_constraint_satisfied(eqEps para)` / `is_ineq_constraint_satisfied(ineqEps)`. -/
 theorem violation_check_iff (kind : EstKind) (para : Bool) (nNum : Nat) (results : List (List Verdict))
-    (hlen : ∀ r ∈ results, r.length = nNum) :
+    (hne : results ≠ []) (hlen : ∀ r ∈ results, r.length = nNum) :
     ∃ b, violationCheck kind para nNum results = some b ∧
       (b = false ↔ ∃ r ∈ results, ∃ v ∈ r,
         (enforcesEq kind para = true ∧ v.eqOK = false) ∨ (enforcesIneq kind = true ∧ v.ineqOK = false)) := by
+  have hvc : violationCheck kind para nNum results = violationCheckCore kind para nNum results := by
+    cases results with
+    | nil => exact absurd rfl hne
+    | cons r rs => simp [violationCheck]
+  rw [hvc]
   obtain ⟨be, hbe, he⟩ := allPass_spec (·.eqOK) nNum results hlen
   obtain ⟨bi, hbi, hi⟩ := allPass_spec (·.ineqOK) nNum results hlen
   obtain ⟨bb, hbb, hb⟩ := allPass_spec (fun v => v.eqOK && v.ineqOK) nNum results hlen
@@ -184,27 +240,27 @@ theorem violation_check_iff (kind : EstKind) (para : Bool) (nNum : Nat) (results
     intro b P h; cases b <;> simp_all
   cases kind with
   | projLinear =>
-      refine ⟨bb, by simp [violationCheck, hbb], key _ _ (hb.trans ?_)⟩
+      refine ⟨bb, by simp [violationCheckCore, hbb], key _ _ (hb.trans ?_)⟩
       simp [enforcesEq, enforcesIneq]
   | linear =>
       cases para with
       | true =>
-          refine ⟨be, by simp [violationCheck, hbe], key _ _ (he.trans ?_)⟩
+          refine ⟨be, by simp [violationCheckCore, hbe], key _ _ (he.trans ?_)⟩
           simp [enforcesEq, enforcesIneq]
-      | false => exact ⟨true, by simp [violationCheck], by simp [enforcesEq, enforcesIneq]⟩
-  | other => exact ⟨true, by simp [violationCheck], by simp [enforcesEq, enforcesIneq]⟩
+      | false => exact ⟨true, by simp [violationCheckCore], by simp [enforcesEq, enforcesIneq]⟩
+  | other => exact ⟨true, by simp [violationCheckCore], by simp [enforcesEq, enforcesIneq]⟩
   | lossMin o =>
       cases o with
-      | none => exact ⟨true, by simp [violationCheck], by simp [enforcesEq, enforcesIneq]⟩
+      | none => exact ⟨true, by simp [violationCheckCore], by simp [enforcesEq, enforcesIneq]⟩
       | some fl =>
           obtain ⟨onEq, onIneq⟩ := fl
           cases onEq <;> cases onIneq
-          · exact ⟨true, by simp [violationCheck], by simp [enforcesEq, enforcesIneq]⟩
-          · refine ⟨bi, by simp [violationCheck, hbi], key _ _ (hi.trans ?_)⟩
+          · exact ⟨true, by simp [violationCheckCore], by simp [enforcesEq, enforcesIneq]⟩
+          · refine ⟨bi, by simp [violationCheckCore, hbi], key _ _ (hi.trans ?_)⟩
             simp [enforcesEq, enforcesIneq]
-          · refine ⟨be, by simp [violationCheck, hbe], key _ _ (he.trans ?_)⟩
+          · refine ⟨be, by simp [violationCheckCore, hbe], key _ _ (he.trans ?_)⟩
             simp [enforcesEq, enforcesIneq]
-          · refine ⟨be && bi, by simp [violationCheck, hbe, hbi], key _ _ ?_⟩
+          · refine ⟨be && bi, by simp [violationCheckCore, hbe, hbi], key _ _ ?_⟩
             simp only [Bool.and_eq_true, he, hi, enforcesEq, enforcesIneq]
             constructor
             · rintro ⟨h1, h2⟩ ⟨r, hr, v, hv, h⟩
@@ -222,6 +278,15 @@ theorem violation_check_iff (kind : EstKind) (para : Bool) (nNum : Nat) (results
                 | true => rfl
                 | false => exact absurd ⟨r, hr, v, hv, Or.inr ⟨trivial, hx⟩⟩ h
 
+/-- C15.g: with no stored result the check raises (IndexError on `estimation_results[0]`) for the estimators whose test
+reads `on_para_eq_constraint` from the first result; for the others it passes vacuously. -/
+theorem violation_check_empty (kind : EstKind) (para : Bool) (nNum : Nat) :
+    violationCheck kind para nNum [] = if indexesFirst kind nNum then none else violationCheckCore kind para nNum [] := by
+  simp [violationCheck]
+
+example : violationCheck .linear true 2 [] = none ∧ violationCheck (.lossMin (some (false, true))) true 2 [] = some true
+    ∧ violationCheck .projLinear true 0 [] = some true := by decide
+
 /-- C15.g: a result that stores fewer estimates than sample sizes makes the check raise (IndexError), it is not
 silently passed. -/
 theorem violation_check_short_row_raises (nNum : Nat) (r : List Verdict) (rs : List (List Verdict))
@@ -237,7 +302,7 @@ theorem violation_check_short_row_raises (nNum : Nat) (r : List Verdict) (rs : L
         · simp [allPassFrom, rowsPass]
         · simp only [allPassFrom, ih hm]
           cases rowsPass f k (r :: rs) <;> rfl
-  simp [violationCheck, allPass, hk _ _ (List.mem_range.mpr h)]
+  simp [violationCheck, violationCheckCore, allPass, hk _ _ (List.mem_range.mpr h)]
 
 /-- the documented thresholds -/
 theorem thresholds : eqEps true = 1 / 10000000000000 ∧ eqEps false = 1 / 100000 ∧ ineqEps = 1 / 100000 := by
@@ -295,10 +360,11 @@ theorem gen_seed_keyword :
     execNoneDefault = "seed_data" := by decide
 
 /-- C15.h: the flow seeds the data level with `SeedSequence(seed_data).spawn(n_rep)` and the sample level with
-`SeedSequence(seed_qoperation).spawn(n_sample)`, one child generator per task, handed over positionally — the arguments of
-`flowData` / `flowSamples`. -/
+`SeedSequence(seed_qoperation).spawn(n_sample)`, one child generator per task, handed over positionally (argument 2 of
+`generate_empi_dists_sequence`, argument 6 of `execute_simulation_sample_unit`) — the arguments of `flowData` / `flowSamples`. -/
 theorem gen_flow_seeds :
-    flowSeeds.map (fun e => (e.2.1, e.2.2.1)) = [("seed_data", "n_rep"), ("seed_qoperation", "n_sample")] := by decide
+    flowSeeds = [("execute_simulation_sample_unit", "seed_data", "n_rep", 2),
+                 ("execute_simulation_test_setting_unit", "seed_qoperation", "n_sample", 6)] := by decide
 
 /-- C15.g `gen_thresholds`: the thresholds the check resolves are those of the model: equality `atol` (the default
 tolerance at import) when the first stored estimate has `on_para_eq_constraint`, `1e-5` otherwise; inequality `1e-5`;
@@ -309,8 +375,10 @@ theorem gen_thresholds :
   refine ⟨by decide, by decide, by decide, by decide, by decide⟩
 
 /-- C15.g `gen_check_wiring`: per estimator class the built-in check calls exactly the tests of the constraints the model
-says that estimator enforces (`enforcesEq`, `enforcesIneq`). -/
-theorem gen_check_wiring : checkWiring.map (fun e => (e.1, e.2.1)) = Gen.modelWiring := by decide
+says that estimator enforces (`enforcesEq`, `enforcesIneq`), each under the guard (`para`, `on_algo_eq_constraint`,
+`on_algo_ineq_constraint`) whose flag the model makes that test depend on. -/
+theorem gen_check_wiring :
+    checkWiring.map (fun e => (e.1, e.2.1)) = Gen.modelWiring ∧ checkGuards = Gen.modelGuards := by decide
 
 example : (loopWith loopPassesStream lcg 3 (.int 5) 7).1 = [5, 241366, 943247] := by decide
 
